@@ -20,7 +20,7 @@ static void child_sig(int sig, siginfo_t *si, void *) {
     _exit(100);
 }
 
-struct Outcome { std::string kind; int sig = 0; unsigned long addr = 0; bool returned = false, null_obj = false, stream_good = true, reexport_ok = false, reexport_crashed = false; long consumed = -1; int exit_code = 0; bool timeout = false; };
+struct Outcome { std::string kind; int sig = 0; unsigned long addr = 0; bool returned = false, null_obj = false, stream_good = true, reexport_ok = false, reexport_crashed = false; long consumed = -1; int exit_code = 0; bool timeout = false, threw = false; };
 
 // records the offsets of 4-byte writes (type tags) while exporting
 struct RecBuf : std::streambuf {
@@ -46,6 +46,12 @@ static Outcome run_case(const Kind &B, const Holder &like, const std::string &in
         HP im; bool good = true; long pos = -1;
         std::istringstream is(input, std::ios::binary); FILE *f = nullptr;
         if (tr == T_STREAM) { im = B.imp_s(is, like); good = (bool) is; is.clear(); pos = (long) is.tellg(); }
+        else if (tr >= 2) {     // the caller's stream reports errors by exception (mask failbit|badbit, or all three bits)
+            is.exceptions(tr == 2 ? (std::ios::failbit | std::ios::badbit) : (std::ios::failbit | std::ios::badbit | std::ios::eofbit));
+            try { im = B.imp_s(is, like); good = !is.fail() && !is.bad(); }
+            catch (const std::ios_base::failure &) { ssize_t rr = write(g_pipe_w, "T\n", 2); (void) rr; _exit(0); }
+            is.exceptions(std::ios::goodbit); is.clear(); pos = (long) is.tellg();
+        }
         else { f = fmemopen(input.empty() ? (void *) "" : (void *) input.data(), input.size() ? input.size() : 1, "rb"); if (input.empty()) { fseek(f, 0, SEEK_END); }
                im = B.imp_f(f, like); pos = ftell(f); }
         char b[96]; int n = snprintf(b, sizeof b, "R %d %d %ld\n", im->obj ? 1 : 0, good ? 1 : 0, pos);
@@ -66,6 +72,7 @@ static Outcome run_case(const Kind &B, const Holder &like, const std::string &in
     std::stringstream ss(got); std::string ln; bool have_x = false;
     while (std::getline(ss, ln)) {
         if (ln[0] == 'S') { sscanf(ln.c_str(), "S %d %lu", &o.sig, &o.addr); }
+        else if (ln[0] == 'T') { o.threw = true; }
         else if (ln[0] == 'R') { int a, b2; long c; sscanf(ln.c_str(), "R %d %d %ld", &a, &b2, &c); o.returned = true; o.null_obj = !a; o.stream_good = b2; o.consumed = c; }
         else if (ln[0] == 'X') { int a; size_t sz; sscanf(ln.c_str(), "X %d %zu", &a, &sz); o.reexport_ok = a; have_x = true; }
     }
@@ -81,6 +88,7 @@ static std::map<std::string, uint64_t> tally;
 // classify; returns violation key or ""
 static std::string classify(const Outcome &o, int tr, std::string &cls) {
     if (o.timeout) { cls = "hang"; return "import:hang"; }
+    if (o.threw) { cls = "threw-ios_base::failure-to-the-caller"; return ""; }      // not a normal return: the caller is told
     if (o.exit_code == 97 || o.exit_code == 96) { cls = "sanitizer-report"; return "import:sanitizer-stopped-the-import"; /* the report itself is routed from the logs by the runner */ }
     if (o.sig && !o.returned) {
         if (o.sig == SIGSEGV || o.sig == SIGBUS) { if (o.addr < 4096) { cls = "terminated:null-deref"; return ""; } cls = "wild-access"; return "import:wild-access"; }
@@ -100,9 +108,9 @@ static std::string classify(const Outcome &o, int tr, std::string &cls) {
 static void record(const std::string &mode, const Kind &A, const Kind &B, int tr, const Outcome &o, const J &ctx) {
     std::string cls; std::string key = classify(o, tr, cls);
     out.evaluations++;
-    tally[mode + "|" + B.name + "|" + (tr ? "file" : "stream") + "|" + cls]++;
+    tally[mode + "|" + B.name + "|" + (tr == 1 ? "file" : tr == 0 ? "stream" : "stream-with-exception-mask") + "|" + cls]++;
     if (!key.empty()) {
-        J d = ctx; d.s("mode", mode).s("exported_as", A.name).s("imported_as", B.name).s("transport", tr ? "FILE" : "stream").s("outcome", cls).i("signal", o.sig).u("fault_addr", o.addr).i("consumed", o.consumed);
+        J d = ctx; d.s("mode", mode).s("exported_as", A.name).s("imported_as", B.name).s("transport", tr == 1 ? "FILE" : tr == 0 ? "stream" : tr == 2 ? "stream, exceptions(failbit|badbit)" : "stream, exceptions(failbit|badbit|eofbit)").s("outcome", cls).i("signal", o.sig).u("fault_addr", o.addr).i("consumed", o.consumed);
         out.viol(key + ":" + mode + ":" + B.name, d);
     }
 }
@@ -149,7 +157,7 @@ int main(int argc, char **argv) {
                 while (s.size() < (size_t) max_offsets) s.insert(rng.below(len));
                 offs.assign(s.begin(), s.end());
             }
-            for (size_t L: offs) for (int tr = 0; tr < 2; tr++) {
+            for (size_t L: offs) for (int tr = 0; tr < 4; tr++) {
                 if (!mine()) continue;
                 VH_OP("prefix:%s:%zu", K[i].name.c_str(), L);
                 Outcome o = run_case(K[i], *objs[i], full.substr(0, L), tr);
